@@ -67,7 +67,7 @@ func perturbRecord(c *core.Ctx, r interface{}) (interface{}, string) {
 	sort.Strings(keys)
 	k := keys[c.Rng.Intn(len(keys))]
 	out := deepCopy(m).(map[string]interface{})
-	switch c.Rng.Intn(6) {
+	switch c.Rng.Intn(7) {
 	case 0: // same size: one key renamed, value kept
 		delete(out, k)
 		out[k+"'"] = deepCopy(m[k])
@@ -77,6 +77,14 @@ func perturbRecord(c *core.Ctx, r interface{}) (interface{}, string) {
 		out["u~"] = nil
 		out2["h~"] = nil
 		return []interface{}{out, out2}, "nil under different keys" // caller unpacks the pair
+	case 6: // same size, same shared keys: nil under a key of the first, a VALUE under another key of the second (either order)
+		out2 := deepCopy(m).(map[string]interface{})
+		out["u~"] = nil
+		out2["h~"] = int64(7)
+		if c.Rng.Intn(2) == 0 {
+			out, out2 = out2, out
+		}
+		return []interface{}{out, out2}, "nil under different keys"
 	case 2: // a key present with nil vs absent
 		out["n~"] = nil
 		return out, "extra nil-valued key"
@@ -177,6 +185,9 @@ func C20(c *core.Ctx) {
 		if ra != c20Render(a) || rb != c20Render(b) {
 			c.Violation("judge-go", "c20-mutated-args", "Equal modified its arguments", map[string]string{"a": ra, "b": rb})
 		}
+		if back := b.Equal(a); back != got {
+			c.Violation("judge-go", "c20-asymmetric", fmt.Sprintf("a.Equal(b) = %v but b.Equal(a) = %v (%s)", got, back, how), map[string]string{"a": trunc(ra, 300), "b": trunc(rb, 300)})
+		}
 		c.Corr("c20-equal", "equal", []string{ra, rb}, boolStr(got))
 		c.Judge("c20-equal", "judge_equal", []string{ra, rb, boolStr(got)}, "EntryList.Equal result vs multiset equality")
 		if len(a) == 2 && len(b) == 2 {
@@ -218,6 +229,9 @@ func C20(c *core.Ctx) {
 	n := c.N(400, 20000)
 	for i := 0; i < n; i++ {
 		ln := 5 + c.Rng.Intn(12)
+		if i%5 == 0 { // an implementation may switch algorithm with the length (index, sort): long lists too
+			ln = 60 + c.Rng.Intn(90)
+		}
 		a := make([]int, ln)
 		for j := range a {
 			a[j] = c.Rng.Intn(len(alpha))
